@@ -6,3 +6,93 @@ Theorem C02_select_size : forall S L ann seeder nw,
   0 <= nw -> sel_size_ok nw (select_ref S L ann seeder nw) = true.
 Proof. exact select_ref_size. Qed.
 Print Assumptions C02_select_size.
+
+(* the key tests used by the checker are exact *)
+Theorem C02_kmem_In : forall k l, kmem k l = true <-> In k l.
+Proof. exact kmem_In. Qed.
+Print Assumptions C02_kmem_In.
+
+Theorem C02_kcount_NoDup_In : forall k l, NoDup l -> In k l -> kcount k l = 1.
+Proof. exact kcount_NoDup_In. Qed.
+Print Assumptions C02_kcount_NoDup_In.
+
+Theorem C02_kcount_not_In : forall k l, ~ In k l -> kcount k l = 0.
+Proof. exact kcount_not_In. Qed.
+Print Assumptions C02_kcount_not_In.
+
+(* headline: AnnouncePeers, for any iteration order of its two maps, satisfies every clause *)
+Theorem C02_select_ref_ok : forall S L ann seeder nw,
+  NoDup S -> NoDup L -> 0 <= nw ->
+  ok_selection S L ann seeder nw (select_ref S L ann seeder nw) = true.
+Proof. exact select_ref_ok. Qed.
+Print Assumptions C02_select_ref_ok.
+
+Theorem C02_select_ref_spec : forall S L ann seeder nw,
+  NoDup S -> NoDup L -> 0 <= nw ->
+  selection_spec S L ann seeder nw (select_ref S L ann seeder nw).
+Proof. exact select_ref_spec. Qed.
+Print Assumptions C02_select_ref_spec.
+
+(* the checker applied to the implementation's output accepts exactly the allowed selections *)
+Theorem C02_ok_selection_sound : forall S L ann seeder nw res,
+  NoDup S -> NoDup L -> 0 <= nw ->
+  ok_selection S L ann seeder nw res = true -> selection_spec S L ann seeder nw res.
+Proof. exact ok_selection_sound. Qed.
+Print Assumptions C02_ok_selection_sound.
+
+Theorem C02_ok_selection_complete : forall S L ann seeder nw res,
+  NoDup S -> NoDup L -> 0 <= nw ->
+  selection_spec S L ann seeder nw res -> ok_selection S L ann seeder nw res = true.
+Proof. exact ok_selection_complete. Qed.
+Print Assumptions C02_ok_selection_complete.
+
+Theorem C02_ok_selection_iff : forall S L ann seeder nw res,
+  NoDup S -> NoDup L -> 0 <= nw ->
+  (ok_selection S L ann seeder nw res = true <-> selection_spec S L ann seeder nw res).
+Proof. exact ok_selection_iff. Qed.
+Print Assumptions C02_ok_selection_iff.
+
+(* the clauses of the property, consequences of the specification *)
+Theorem C02_selection_size : forall S L ann seeder nw res,
+  selection_spec S L ann seeder nw res -> zlen res <= nw.
+Proof. exact selection_size. Qed.
+Print Assumptions C02_selection_size.
+
+Theorem C02_selection_members : forall S L ann seeder nw res,
+  selection_spec S L ann seeder nw res -> forall k, In k res -> In k S \/ In k L.
+Proof. exact selection_members. Qed.
+Print Assumptions C02_selection_members.
+
+Theorem C02_selection_no_own_leecher_entry : forall S L ann seeder nw res,
+  seeder = false -> ~ In ann S -> selection_spec S L ann seeder nw res -> ~ In ann res.
+Proof. exact selection_no_own_leecher_entry. Qed.
+Print Assumptions C02_selection_no_own_leecher_entry.
+
+Theorem C02_selection_own_key_count : forall S L ann nw res,
+  selection_spec S L ann false nw res -> kcount ann res <= b2z (kmem ann S).
+Proof. exact selection_own_key_count. Qed.
+Print Assumptions C02_selection_own_key_count.
+
+Theorem C02_selection_seeder_gets_leechers : forall S L ann seeder nw res,
+  seeder = true -> selection_spec S L ann seeder nw res -> incl res L.
+Proof. exact selection_seeder_gets_leechers. Qed.
+Print Assumptions C02_selection_seeder_gets_leechers.
+
+Theorem C02_selection_seeders_first : forall S L ann seeder nw res,
+  seeder = false -> selection_spec S L ann seeder nw res -> zlen res < nw ->
+  forall k, In k S -> In k res.
+Proof. exact selection_seeders_first. Qed.
+Print Assumptions C02_selection_seeders_first.
+
+Theorem C02_selection_full : forall S L ann seeder nw res,
+  selection_spec S L ann seeder nw res ->
+  zlen res = Z.min nw (zlen (pool_s S seeder) + zlen (pool_l L ann seeder)).
+Proof. exact selection_full. Qed.
+Print Assumptions C02_selection_full.
+
+Theorem C02_empty_selection_iff : forall S L ann seeder nw,
+  0 <= nw ->
+  (selection_spec S L ann seeder nw [] <->
+   (nw = 0 \/ (pool_s S seeder = [] /\ pool_l L ann seeder = []))).
+Proof. exact empty_selection_iff. Qed.
+Print Assumptions C02_empty_selection_iff.
